@@ -25,14 +25,8 @@ class _Pipeline:
     def __radd__(self, other) -> Self:
         return self + other
 
-    def __rsub__(self, other) -> Self:
-        return self - other
-
     def __rmul__(self, other) -> Self:
         return self * other
-
-    def __rtruediv__(self, other) -> Self:
-        return self / other
 
 
 class ImageProvider(_Pipeline, Generic[_R]):
@@ -121,6 +115,12 @@ class ImageProvider(_Pipeline, Generic[_R]):
                 lambda scale: _ge(self(scale), other(scale))
             ).with_name(f"{self.__name__} >= {other.__name__}")
         return self.__class__(lambda scale: self(scale) >= other)
+
+    def __rsub__(self, other) -> ImageProvider:
+        return self.__class__(lambda scale: other - self(scale))
+
+    def __rtruediv__(self, other) -> ImageProvider:
+        return self.__class__(lambda scale: other / self(scale))
 
     def __neg__(self) -> ImageProvider:
         return self.__class__(lambda scale: -self(scale)).with_name(
@@ -286,6 +286,12 @@ class ImageConverter(_Pipeline):
                 lambda x, scale: _le(self(x, scale), other(scale))
             ).with_name(f"({self.__name__} <= {other.__name__})")
         return self.__class__(lambda x, scale: self(x, scale) <= other)
+
+    def __rsub__(self, other) -> ImageConverter:
+        return self.__class__(lambda x, scale: other - self(x, scale))
+
+    def __rtruediv__(self, other) -> ImageConverter:
+        return self.__class__(lambda x, scale: other / self(x, scale))
 
     def __neg__(self) -> ImageConverter:
         return self.__class__(lambda x, scale: -self(x, scale))
